@@ -75,6 +75,14 @@ func firstLine(s string) string {
 // get-value lines already included) on all solvers. If wantAll is set, waits
 // for every solver (cross-solver agreement in the thorough tier).
 func Solve(query string, timeoutS int, wantAll bool) SolverResult {
+	return SolveN(query, timeoutS, wantAll, len(solvers))
+}
+
+// SolveN races only the first n solvers (the instance-only attempts use the
+// two z3 versions: cvc5 is several times slower on those large ground
+// queries and only burns a core until it is killed).
+func SolveN(query string, timeoutS int, wantAll bool, nsolv int) SolverResult {
+	solvers := solvers[:nsolv]
 	fileCounter.Lock()
 	fileCounter.n++
 	n := fileCounter.n
